@@ -361,12 +361,61 @@ pub fn c08() -> i32 {
                 }
             }
             // unknown source address: an authentic packet arriving from an address the session
-            // does not know
+            // does not know, unchanged and with other input values in it (right magic, right
+            // sizes - only the source address tells it from the peer's traffic)
             if let Some((_, m)) = auth {
                 let mut s = base.clone();
                 s.inject.push(InjectSpec { round: r, to: a, from: 99, msg: m.clone(), before: true });
                 s.name = format!("{} round={r} before=true forged unknown-source-address", base.name);
                 scns.push(s);
+                if let WBody::Input(inp) = &m.body {
+                    let mut i = inp.clone();
+                    i.bytes = reencode(inp, |fr: &mut Vec<Vec<u8>>| {
+                        for x in fr.iter_mut() {
+                            for b in x.iter_mut() {
+                                *b ^= 0x2A;
+                            }
+                        }
+                        // and frames the receiver cannot have yet
+                        let l = fr.last().cloned().unwrap_or_default();
+                        for _ in 0..3 {
+                            fr.push(l.clone());
+                        }
+                    });
+                    let mut s = base.clone();
+                    s.inject.push(InjectSpec { round: r, to: a, from: 99, msg: WMessage { magic: m.magic, body: WBody::Input(i) }, before: true });
+                    s.name = format!("{} round={r} before=true forged unknown-source-address-other-values", base.name);
+                    scns.push(s);
+                }
+            }
+            // to the spectator from an unknown address, carrying its host's magic: the newest
+            // authentic host->spectator input with other values and further frames
+            if !base.specs.is_empty() {
+                let host_inputs: Vec<&(i32, crate::types::Addr, crate::types::Addr, WMessage)> = sn.sniff.iter().filter(|p| p.1 == a && p.2 == 20 && matches!(p.3.body, WBody::Input(_)) && p.0 <= r).collect();
+                if let Some(p) = host_inputs.last() {
+                    if let WBody::Input(inp) = &p.3.body {
+                        for extra in [0usize, 3] {
+                            let mut i = inp.clone();
+                            i.bytes = reencode(inp, |fr: &mut Vec<Vec<u8>>| {
+                                for x in fr.iter_mut() {
+                                    for b in x.iter_mut() {
+                                        *b ^= 0x2A;
+                                    }
+                                }
+                                let l = fr.last().cloned().unwrap_or_default();
+                                for _ in 0..extra {
+                                    fr.push(l.clone());
+                                }
+                            });
+                            for before in [true, false] {
+                                let mut s = base.clone();
+                                s.inject.push(InjectSpec { round: r, to: 20, from: 99, msg: WMessage { magic: p.3.magic, body: WBody::Input(i.clone()) }, before });
+                                s.name = format!("{} round={r} before={before} forged to-spectator unknown-source-address-host-magic extra-frames={extra}", base.name);
+                                scns.push(s);
+                            }
+                        }
+                    }
+                }
             }
             // to the spectator from its host's address
             if !base.specs.is_empty() {
